@@ -106,8 +106,17 @@ Definition family_field_name (name : chars) : res := fmt_ident (to_lower_snake_c
 
 Definition join2 (a b : chars) : chars := (a ++ us :: b)%list.
 
-(* name::combined_ident : idents joined by '_' (left fold of format_ident!("{a}_{b}")) *)
+(* name::combined_ident (after the raw-identifier fix): one ident is returned as it is; two or more are joined by '_' with
+   format_ident!("{}_{}", combined, ident), whose explicit arguments lose their `r#` prefix (left fold) *)
 Definition combined_ident (ids : list chars) : res :=
+  match ids with
+  | [] => InternalError
+  | [x] => Ok x
+  | x :: r => fold_left (fun acc y => match acc with Ok a => fmt_ident (join2 (strip_raw a) (strip_raw y)) | e => e end) r (Ok x)
+  end.
+
+(* the code before that fix: format_ident!("{combined}_{ident}") keeps the `r#` of every ident inside the string *)
+Definition combined_ident_old (ids : list chars) : res :=
   match ids with
   | [] => InternalError
   | x :: r => fold_left (fun acc y => match acc with Ok a => fmt_ident (join2 a y) | e => e end) r (Ok x)
